@@ -171,7 +171,7 @@ func (g *Gen) tplClosureExit() []L.Stmt {
 		var raise L.Stmt
 		switch g.n(4, "raisekind") {
 		case 0:
-			raise = callStmt(call(name("error"), str("boom")))
+			raise = callStmt(call(name("error"), str("boom 50% %s")))
 		case 1:
 			raise = callStmt(call(name("error"), tbl()))
 		case 2:
